@@ -19,8 +19,14 @@ def check_planar(ctx, cs):
         small = {"r1": r1, "r2": r2}
         ctx.count(("ray", str(r1), str(r2)), sample={"op": "ray", **small, "expected": res})
         def run():
-            a = ray.Ray([float(x) for x in r1[0]], [float(x) for x in r1[1]])
-            b = ray.Ray([float(x) for x in r2[0]], [float(x) for x in r2[1]])
+            # (both rays are built from the same two buffers, which are re-filled in between and overwritten afterwards)
+            pbuf, dbuf = [float(x) for x in r1[0]], [float(x) for x in r1[1]]
+            a = ray.Ray(pbuf, dbuf)
+            pbuf[:] = [float(x) for x in r2[0]]
+            dbuf[:] = [float(x) for x in r2[1]]
+            b = ray.Ray(pbuf, dbuf)
+            pbuf[:] = [9.0e9] * len(pbuf)
+            dbuf[:] = [9.0e9] * len(dbuf)
             return ray.intersect(a, b), a, b
         ok, r = _try(ctx, "ray.intersect", tg, small, run)
         if not ok:
@@ -134,6 +140,20 @@ def check_shape(ctx, cs):
         small = dict(small, prm=o["prm"])
         ctx.count(("find_ctrlpts", shape_key(sh), tuple(map(tuple, o["prm"]))), sample={"op": "find_ctrlpts", **small, "idx": o["idx"]})
         from geomdl import helpers
+        # after the grid view has been read and the shape moved in place, the look-up returns the moved points
+        if pd == 2:
+            def moved():
+                ob = build(sh)
+                _ = ob.ctrlpts2d
+                operations.translate(ob, [7.0] * ob.dimension, inplace=True)
+                r_ = operations.find_ctrlpts(ob, *prm)
+                return [list(q) for row in r_ for q in row], [list(q) for q in ob.ctrlpts], ([list(q) for q in ob.ctrlptsw] if sh["rat"] else None)
+            ok, r = _try(ctx, "operations.find_ctrlpts", tg + ["after_inplace_translate"], small, moved)
+            if ok:
+                un = [r[1][i] for i in o["idx"]]
+                wt = [r[2][i] for i in o["idx"]] if sh["rat"] else un
+                if not (close_seq(r[0], un) or close_seq(r[0], wt)):
+                    ctx.violate("operations.find_ctrlpts", tg + ["after_inplace_translate"], small, {"got": r[0][:2], "expected": un[:2]})
         for sname, kw in (("default", {}), ("binsearch", {"find_span_func": helpers.find_span_binsearch})):
             t2 = tg + (["find_span_func=" + sname] if kw else [])
             ok, r = _try(ctx, "operations.find_ctrlpts", t2, small, lambda: operations.find_ctrlpts(obj, *prm, **kw))
